@@ -1,11 +1,211 @@
-(* Props/C01.v — placeholder while the proofs are being written *)
-From PV Require Import Base.Fmt Spec.ElfGabi Gen.ElfLayouts Proofs.ElfLayoutFacts.
+(* Props/C01.v — property C01: ELF file, section and program headers are decoded exactly as
+   encoded.  Only statements, closed by [exact]; proofs live in Proofs/C01*.v.
 
+   Model  : Model/C01ElfFile.v — transliteration of elffile.py (ELFFile.__init__, _identify_file,
+            _parse_elf_header, num_sections, num_segments, get_shstrndx, _get_section_header,
+            _get_segment_header, _get_section_name, _make_section, _make_segment, get_section,
+            get_segment, iter_sections, iter_segments, _make_section_name_map, get_section_index,
+            has_section, get_section_by_name) with the constructors of the section/segment classes
+            that run at creation time.  Record layouts, Enum bindings and dictionaries, the
+            machine -> sh_type/p_type dictionary maps, SHF_COMPRESSED/SHN_XINDEX and the bodies of
+            _section_offset/_segment_offset are REGENERATED from the live code (Gen/ElfLayouts.v,
+            Gen/Tables.v, Gen/PyFuns.v).
+   Meaning: Spec/C01Image.v — an abstract image [s] (class, byte order, every header field, sections
+            with names, segments, name-table index) and the boolean predicate [wf_image img s]:
+            the BYTES img carry s — file header at 0, section header i at e_shoff + i*e_shentsize,
+            program header j at e_phoff + j*e_phentsize, entry sizes >= the gABI sizes, counts and
+            name-table index direct or through the three extended-numbering escapes, names
+            NUL-terminated in the designated string table, and what each specialised section
+            object needs in order to exist.  img is otherwise an ARBITRARY byte list: tables
+            anywhere, any filler.
+   The theorems quantify over ALL img, s with wf_image img s = true (both classes, both byte
+   orders, every e_machine / OS ABI value, any counts). *)
+From Coq Require Import String.
+From PV Require Import Base.Bytes Base.Outcome Base.Fmt Base.Enum Base.PyData.
+From PV Require Import Gen.ElfLayouts Spec.ElfGabi Spec.C01Obs Spec.C01Image Model.C01ElfFile.
+From PV Require Import Proofs.C01Lemmas Proofs.C01Open Proofs.C01Sections Proofs.C01Iter
+  Proofs.C01Dispatch Proofs.C01Top Proofs.C01Examples.
+Open Scope string_scope.
+Open Scope list_scope.
+Open Scope Z_scope.
+
+(* ---- 1. the record layouts walked from the live construct trees are the gABI tables *)
 Theorem C01_gen_layouts_match_gabi : forall le is64,
   gen_Elf_Ehdr le is64 = spec_Elf_Ehdr le is64 /\
   gen_Elf_Shdr le is64 = spec_Elf_Shdr le is64 /\
   gen_Elf_Phdr le is64 = spec_Elf_Phdr le is64.
-Proof. intros le is64. split; [apply gen_Elf_Ehdr_gabi|split; [apply gen_Elf_Shdr_gabi|apply gen_Elf_Phdr_gabi]]. Qed.
+Proof. exact gen_layouts_match_gabi. Qed.
 Print Assumptions C01_gen_layouts_match_gabi.
 
-Example C01_placeholder : True. Proof. exact I. Qed.
+(* ---- 2. ELFFile(stream) succeeds; class, byte order and EVERY file-header field are the encoded
+   ones (enum fields by name or raw integer, see 9) *)
+Theorem C01_ehdr_exact : forall img s, wf_image img s = true ->
+  exists ef, elf_open img = Ok ef /\
+    c_img (ef_core ef) = img /\ c_is64 (ef_core ef) = i_is64 s /\ c_le (ef_core ef) = i_le s /\
+    c_hdr (ef_core ef) = exp_ehdr s.
+Proof. exact open_exact. Qed.
+Print Assumptions C01_ehdr_exact.
+
+(* section header i, for every i below the count, any table offset, any entry size >= standard *)
+Theorem C01_shdr_at_exact : forall img s ef i x, wf_image img s = true -> elf_open img = Ok ef ->
+  nth_sec s i = Some x -> get_section_header (ef_core ef) i = Ok (Some (exp_shdr s (snd x))).
+Proof. exact shdr_at_exact. Qed.
+Print Assumptions C01_shdr_at_exact.
+
+(* program header j likewise *)
+Theorem C01_phdr_at_exact : forall img s ef j p, wf_image img s = true -> elf_open img = Ok ef ->
+  nth_seg s j = Some p -> get_segment_header (ef_core ef) j = Ok (exp_phdr s p).
+Proof. exact phdr_at_exact. Qed.
+Print Assumptions C01_phdr_at_exact.
+
+(* ---- 3. counts and name-table index, including e_shnum = 0 / PN_XNUM / SHN_XINDEX *)
+Theorem C01_counts_exact : forall img s ef, wf_image img s = true -> elf_open img = Ok ef ->
+  num_sections ef = Ok (n_sections s) /\ num_segments ef = Ok (n_segments s) /\
+  get_shstrndx (ef_core ef) = Ok (i_shstrndx s).
+Proof. exact counts_exact. Qed.
+Print Assumptions C01_counts_exact.
+
+(* ---- 4. names (C16's C-string theorem), objects, enumeration in file order, type filter *)
+Theorem C01_names_exact : forall img s ef i x, wf_image img s = true -> elf_open img = Ok ef ->
+  nth_sec s i = Some x -> get_section_name ef (Some (exp_shdr s (snd x))) = Ok (fst x).
+Proof. exact names_exact. Qed.
+Print Assumptions C01_names_exact.
+
+(* get_section(i): name, every header field, and the specialised object kind *)
+Theorem C01_section_exact : forall img s ef i x, wf_image img s = true -> elf_open img = Ok ef ->
+  nth_sec s i = Some x ->
+  get_section ef i = Ok {| s_name := fst x; s_hdr := exp_shdr s (snd x);
+                           s_kind := spec_kind (sh_tyname s (snd x)) (fst x) |}.
+Proof. exact section_exact. Qed.
+Print Assumptions C01_section_exact.
+
+Theorem C01_segment_exact : forall img s ef j p, wf_image img s = true -> elf_open img = Ok ef ->
+  nth_seg s j = Some p ->
+  get_segment ef j = Ok {| g_hdr := exp_phdr s p; g_kind := spec_segment_kind (p_tyname s p) |}.
+Proof. exact segment_exact. Qed.
+Print Assumptions C01_segment_exact.
+
+Theorem C01_iter_sections_exact : forall img s ef ty, wf_image img s = true -> elf_open img = Ok ef ->
+  iter_sections ef ty =
+  Ok (map (sec_of s) (match ty with
+                      | None => i_sections s
+                      | Some t => filter (fun x => hval_eqb (sh_tyname s (snd x)) t) (i_sections s)
+                      end)).
+Proof. exact iter_sections_exact. Qed.
+Print Assumptions C01_iter_sections_exact.
+
+Theorem C01_iter_segments_exact : forall img s ef ty, wf_image img s = true -> elf_open img = Ok ef ->
+  iter_segments ef ty =
+  Ok (map (seg_of s) (match ty with
+                      | None => i_segments s
+                      | Some t => filter (fun p => hval_eqb (p_tyname s p) t) (i_segments s)
+                      end)).
+Proof. exact iter_segments_exact. Qed.
+Print Assumptions C01_iter_segments_exact.
+
+(* ---- 5. lookups agree with the enumeration: by index ... *)
+Theorem C01_index_agrees : forall img s ef i, wf_image img s = true -> elf_open img = Ok ef ->
+  0 <= i < n_sections s ->
+  exists sec l, get_section ef i = Ok sec /\ iter_sections ef None = Ok l /\
+                nth_error l (Z.to_nat i) = Some sec.
+Proof. exact index_agrees. Qed.
+Print Assumptions C01_index_agrees.
+
+(* ... and by name: get_section_index / has_section / get_section_by_name *)
+Theorem C01_lookup_agrees : forall img s ef name, wf_image img s = true -> elf_open img = Ok ef ->
+  get_section_index ef name = Ok (exp_index_by_name s name) /\
+  has_section ef name = Ok (match exp_index_by_name s name with Some _ => true | None => false end) /\
+  get_section_by_name ef name =
+    Ok (match exp_index_by_name s name with
+        | Some j => match nth_sec s j with Some x => Some (sec_of s x) | None => None end
+        | None => None
+        end).
+Proof. exact lookup_agrees. Qed.
+Print Assumptions C01_lookup_agrees.
+
+(* where the expected index is that of a section of the enumeration bearing the name (the one
+   with the greatest index: the name map is overwritten), and absent iff no section bears it *)
+Theorem C01_lookup_meaning : forall s name,
+  (forall j, exp_index_by_name s name = Some j ->
+     exists x, nth_sec s j = Some x /\ fst x = name /\
+               forall j' x', nth_sec s j' = Some x' -> fst x' = name -> j' <= j) /\
+  (exp_index_by_name s name = None <-> forall x, In x (i_sections s) -> fst x <> name).
+Proof. exact lookup_meaning. Qed.
+Print Assumptions C01_lookup_meaning.
+
+(* ---- 6. codes with a standard name are reported by that name, all others as the raw integer:
+   the enum-typed fields and the dictionary each is decoded with (sh_type / p_type: the one the
+   decoded e_machine selects) ... *)
+Theorem C01_enum_fields : forall img s ef, wf_image img s = true -> elf_open img = Ok ef ->
+  let h := c_hdr (ef_core ef) in let e := i_ehdr s in
+  hty h "e_ident.EI_VERSION" = named (T_ehdr "e_ident.EI_VERSION") (ei_version e) /\
+  hty h "e_ident.EI_OSABI" = named (T_ehdr "e_ident.EI_OSABI") (ei_osabi e) /\
+  hty h "e_type" = named (T_ehdr "e_type") (e_type e) /\
+  hty h "e_machine" = named (T_ehdr "e_machine") (e_machine e) /\
+  hty h "e_version" = named (T_ehdr "e_version") (e_version e) /\
+  (forall i x, nth_sec s i = Some x -> exists r,
+     get_section_header (ef_core ef) i = Ok (Some r) /\
+     hty r "sh_type" = named (T_sh_type s) (sh_type (snd x))) /\
+  (forall j p, nth_seg s j = Some p -> exists r,
+     get_segment_header (ef_core ef) j = Ok r /\ hty r "p_type" = named (T_p_type s) (p_type p)).
+Proof. exact enum_fields. Qed.
+Print Assumptions C01_enum_fields.
+
+(* ... where [named tbl z] is a name the dictionary holds for z, or z itself when it holds none *)
+Theorem C01_enum_named_or_raw : forall tbl z,
+  (exists n, named tbl z = HName n /\ In (z, n) tbl) \/
+  (named tbl z = HZ z /\ forall n, ~ In (z, n) tbl).
+Proof. exact named_cases. Qed.
+Print Assumptions C01_enum_named_or_raw.
+
+(* and that is what construct's (non-strict) Enum adapter computes, for any record field *)
+Theorem C01_enum_adapter : forall b f id z,
+  bind_of b f = Some (id, false) -> adapt_field b f (VZ z) = Some (named (table_of_id id) z).
+Proof. exact adapt_field_bound. Qed.
+Print Assumptions C01_enum_adapter.
+
+(* ---- 7. dispatch: for EVERY stream and header (no well-formedness assumed), an object that
+   _make_section returns has the class Spec.kind_table assigns to the decoded type — with the
+   '.stab' name rule, NullSection for SHT_NULL, the plain Section for every other name and for
+   raw integers — keeps the header, and bears the name read from the name table *)
+Theorem C01_dispatch_kind : forall ef r sec, make_section ef (Some r) = Ok sec ->
+  get_section_name ef (Some r) = Ok (s_name sec) /\ s_hdr sec = r /\
+  s_kind sec = spec_kind (hty r "sh_type") (s_name sec).
+Proof. exact make_section_kind. Qed.
+Print Assumptions C01_dispatch_kind.
+
+Theorem C01_segment_kind : forall ef h g, make_segment ef h = Ok g ->
+  g_hdr g = h /\ g_kind g = spec_segment_kind (hty h "p_type").
+Proof. exact make_segment_kind. Qed.
+Print Assumptions C01_segment_kind.
+
+(* ---- non-vacuity: the hypothesis holds of concrete images (Proofs/C01Examples.v) and the
+   conclusions evaluate to the expected observations *)
+Example C01_ex1_wf : wf_image ex1_img ex1_spec = true.
+Proof. vm_compute. reflexivity. Qed.
+
+Example C01_ex2_wf_escapes :
+  wf_image ex2_img ex2_spec = true /\
+  e_shnum (i_ehdr ex2_spec) = 0 /\ e_phnum (i_ehdr ex2_spec) = 65535 /\ e_shstrndx (i_ehdr ex2_spec) = 65535.
+Proof. vm_compute. repeat split. Qed.
+
+Example C01_ex1_observed :
+  match elf_open ex1_img with
+  | Ok ef => (match iter_sections ef None with Ok l => map s_kind l | Err _ => [] end,
+              match iter_segments ef (Some (HName "PT_NOTE")) with Ok l => map g_kind l | Err _ => [] end,
+              get_section_index ef [46; 116; 101; 120; 116])
+  | Err _ => ([], [], Err EFuel)
+  end
+  = (["NullSection"; "Section"; "StabSection"; "SymbolTableSection"; "StringTableSection";
+      "StringTableSection"; "ARMAttributesSection"; "RelocationSection"; "Section"; "Section"],
+     ["NoteSegment"], Ok (Some 8)).
+Proof. vm_compute. reflexivity. Qed.
+
+Example C01_ex2_observed :
+  match elf_open ex2_img with
+  | Ok ef => (num_sections ef, num_segments ef, get_shstrndx (ef_core ef),
+              match iter_segments ef None with Ok l => map g_kind l | Err _ => [] end)
+  | Err _ => (Err EFuel, Err EFuel, Err EFuel, [])
+  end
+  = (Ok 5, Ok 2, Ok 2, ["DynamicSegment"; "Segment"]).
+Proof. vm_compute. reflexivity. Qed.
